@@ -46,10 +46,10 @@ func (j job) String() string {
 }
 
 type batchArgs struct {
-	Index   int   `json:"index"`
+	Index   int    `json:"index"`
 	Class   string `json:"class"`
-	Jobs    []job `json:"jobs"`
-	Workers int   `json:"workers"`
+	Jobs    []job  `json:"jobs"`
+	Workers int    `json:"workers"`
 }
 
 type env struct {
@@ -154,19 +154,11 @@ func classifyCrash(run *vk.Run, b batchArgs, res vk.ChildResult) {
 		}
 	}
 	var culprit *probeNote
-	// a crash in the publishing path is caused by an 'offer'; prefer one that had to be refused
-	for pass := 0; pass < 3 && culprit == nil; pass++ {
-		for i := range probes {
-			p := &probes[i]
-			switch {
-			case pass == 0 && p.Kind == "offer" && !p.Expected:
-				culprit = p
-			case pass == 1 && !p.Expected && len(probes) == 1:
-				culprit = p
-			}
-			if culprit != nil {
-				break
-			}
+	// a crash in the publishing path is caused by an 'offer' that had to be refused
+	for i := range probes {
+		if probes[i].Kind == "offer" && !probes[i].Expected {
+			culprit = &probes[i]
+			break
 		}
 	}
 	replay := map[string]any{"mode": "batch", "args": b, "crash": res.CrashText, "last_commands": res.Notes}
